@@ -107,6 +107,11 @@ pub enum Style {
     Decoy,
     /// `#else` and `#endif` have a comment glued to them (`#else// c`, `#endif/* c */`)
     Glued,
+    /// every marker is accompanied by a directive word in another letter case (`#Else`, `#ENDIF`, `#Ifdef AAA`,
+    /// `#DEFINE ..`): TableGen's directives are exactly the five lower-case words, anything else after `#` is a
+    /// paste operator followed by an identifier (llvm-tblgen: `"a"#Endif` is a paste, `#Else` inside a disabled
+    /// region does not end it)
+    Miscased,
 }
 pub fn render_styled(seq: &[Item], hostile: &[usize], style: Style) -> String {
     let mut s = String::new();
@@ -121,6 +126,15 @@ pub fn render_styled(seq: &[Item], hostile: &[usize], style: Style) -> String {
                     s.push_str(&format!("mk{} // #endif #else #ifdef AAA\n", i));
                 } else {
                     s.push_str(&format!("mk{} /* #else */ \"#endif\" /* #ifndef BBB */\n", i));
+                }
+                continue;
+            }
+            (Item::Marker, Style::Miscased) => {
+                match i % 4 {
+                    0 => s.push_str(&format!("mk{}\n#Else\n", i)),
+                    1 => s.push_str(&format!("mk{} #ENDIF\n", i)),
+                    2 => s.push_str(&format!("#Ifdef {}\nmk{}\n", MACROS[0], i)),
+                    _ => s.push_str(&format!("mk{} #DEFINE {}\n#Define {}\n", i, MACROS[1], MACROS[0])),
                 }
                 continue;
             }
@@ -187,6 +201,10 @@ pub fn check_seq(seq: &[Item], ctx: &mut Ctx) {
             ctx.feature("comment_glued_to_directive");
             check_seq_rendered(seq, &ev, &[], Style::Glued, ctx);
         }
+        if seq.contains(&Item::Marker) {
+            ctx.feature("miscased_directive_words");
+            check_seq_rendered(seq, &ev, &[], Style::Miscased, ctx);
+        }
     }
     // second rendering: the disabled markers carry text the lexer rejects (an unknown operator, an unterminated
     // string); nothing about it may surface, and the preprocessor's own errors must still be the ones reported
@@ -215,7 +233,9 @@ fn check_seq_rendered(seq: &[Item], ev: &RefEval, hostile: &[usize], style: Styl
                 if k == SyntaxKind::Error {
                     error_tokens += 1;
                 }
-                if k == SyntaxKind::Id {
+                // (the mis-cased rendering adds identifiers of its own - `Else`, `ENDIF`, the macro names: only
+                // the markers are compared there)
+                if k == SyntaxKind::Id && (style != Style::Miscased || t.text().starts_with("mk")) {
                     ids.push(t.text().to_string());
                 }
             }
@@ -514,10 +534,10 @@ impl Check for C15 {
         }
     }
     fn rule(&self) -> String {
-        "EXHAUSTIVE: every sequence of length <= 6 (thorough: <= 8) over {#define A, #define B, #ifdef A, #ifdef B, #ifndef A, #ifndef B, #else, #endif, marker identifier, #ifdef without name, #define without name}, one item per line, pruned at the first stray #else/#endif (outside the statement). Well-nested, fully named, closed sequences: the Id tokens of syntax::parse must equal the markers selected by the reference evaluator refpp and no Error token may appear. Closed-but-for-EOF sequences: some syntax error must mention the missing #endif. Sequences with exactly one nameless directive in enabled text: some error must mention the macro name. Every sequence with a disabled marker (in front of the first nameless directive) is evaluated a second time with `!bogus \"open` - an unknown operator and an unterminated string - appended to each disabled marker's line: the same three oracles apply, so lexical complaints about disabled text may neither surface nor displace the preprocessor's own report. Fully named sequences with a conditional are evaluated twice more: with directive words inside a line comment, a block comment and a string literal on every marker line (they are text, not directives - in enabled and in disabled regions), and with a comment glued to every #else / #endif (`#else// c`, `#endif/* c */`). SAMPLED (ide level): random nestings up to depth 4 with `class V_k {..}` in enabled and `class Hidden_k : Undefined_k; \"unterminated [{ (` in disabled regions: the outline must be exactly the V_k and there must be no diagnostics. non-trivial = sequence contains a conditional / workspace contains disabled declarations; distinct by text digest".into()
+        "EXHAUSTIVE: every sequence of length <= 6 (thorough: <= 8) over {#define A, #define B, #ifdef A, #ifdef B, #ifndef A, #ifndef B, #else, #endif, marker identifier, #ifdef without name, #define without name}, one item per line, pruned at the first stray #else/#endif (outside the statement). Well-nested, fully named, closed sequences: the Id tokens of syntax::parse must equal the markers selected by the reference evaluator refpp and no Error token may appear. Closed-but-for-EOF sequences: some syntax error must mention the missing #endif. Sequences with exactly one nameless directive in enabled text: some error must mention the macro name. Every sequence with a disabled marker (in front of the first nameless directive) is evaluated a second time with `!bogus \"open` - an unknown operator and an unterminated string - appended to each disabled marker's line: the same three oracles apply, so lexical complaints about disabled text may neither surface nor displace the preprocessor's own report. Fully named sequences with a conditional are evaluated twice more: with directive words inside a line comment, a block comment and a string literal on every marker line (they are text, not directives - in enabled and in disabled regions), and with a comment glued to every #else / #endif (`#else// c`, `#endif/* c */`); those with a marker once more with a directive word in another letter case next to every marker (`#Else`, `#ENDIF`, `#Ifdef AAA`, `#DEFINE B` / `#Define AAA` - TableGen's directives are the five lower-case words only, so these are a paste operator and identifiers: they may neither end, flip nor open a region nor define a macro; only the marker identifiers are compared in this rendering). SAMPLED (ide level): random nestings up to depth 4 with `class V_k {..}` in enabled and `class Hidden_k : Undefined_k; \"unterminated [{ (` in disabled regions: the outline must be exactly the V_k and there must be no diagnostics. non-trivial = sequence contains a conditional / workspace contains disabled declarations; distinct by text digest".into()
     }
     fn floors(&self, tier: Tier) -> Vec<(&'static str, u64)> {
-        vec![("exhaustive_units", 122), ("well_nested", tier.pick(10_000, 500_000)), ("unterminated", tier.pick(100_000, 10_000_000)), ("nameless", tier.pick(100_000, 10_000_000)), ("has_disabled_marker", tier.pick(1500, 100_000)), ("lexically_bad_disabled_text", tier.pick(10_000, 500_000)), ("directive_words_in_comments_and_strings", tier.pick(10_000, 500_000)), ("comment_glued_to_directive", tier.pick(10_000, 500_000)), ("ide_with_disabled_decl", 1000)]
+        vec![("exhaustive_units", 122), ("well_nested", tier.pick(10_000, 500_000)), ("unterminated", tier.pick(100_000, 10_000_000)), ("nameless", tier.pick(100_000, 10_000_000)), ("has_disabled_marker", tier.pick(1500, 100_000)), ("lexically_bad_disabled_text", tier.pick(10_000, 500_000)), ("directive_words_in_comments_and_strings", tier.pick(10_000, 500_000)), ("comment_glued_to_directive", tier.pick(10_000, 500_000)), ("miscased_directive_words", tier.pick(10_000, 500_000)), ("ide_with_disabled_decl", 1000)]
     }
     fn exhaustive(&self, tier: Tier) -> Option<String> {
         Some(format!("all directive/marker sequences of length <= {} over the 11-item alphabet (pruned only where a stray #else/#endif already makes every extension ill-nested)", tier.pick(6, 8)))
@@ -525,6 +545,7 @@ impl Check for C15 {
     fn assumptions(&self) -> Vec<String> {
         vec![
             "refpp (c15.rs) is the reference semantics: a macro is defined only by an earlier enabled #define; #else flips the innermost open conditional".into(),
+            "directive words are case-sensitive (LLVM TGLexer::prepIsDirective compares with the lower-case spellings; llvm-tblgen 14 takes `\"a\"#Endif` as a paste and does not end a disabled region at `#Else`)".into(),
             "a directive's macro name must be on the directive's own line (LLVM TGLexer::prepLexMacroName skips horizontal whitespace only)".into(),
             "an error is recognised as reporting the unterminated conditional if its message mentions endif/EOF/#if; as reporting a nameless directive if it mentions 'macro name'".into(),
         ]
